@@ -69,6 +69,8 @@ IMMEDIATE = [
     "flow z\n  when E1()\n    send Out1()\n  or when E2()\n    abort\n\nflow main\n  activate z\n  match Never()\n",
     # an activated flow whose only wait is for a flow that finishes immediately
     "flow b\n  $x = 1\n\nflow z\n  await b\n\nflow main\n  activate z\n  match E1()\n  send Out1()\n  match Never()\n",
+    # an activated flow whose FIRST instance waits and whose restarted instance finishes at once (a global flag set in between)
+    "flow z\n  global $g\n  if $g == 1\n    $x = 1\n  else\n    match E1()\n    $g = 1\n    send Out1()\n\nflow main\n  global $g\n  $g = 0\n  activate z\n  match E3()\n  send Out2()\n  match Never()\n",
 ]
 
 
@@ -135,6 +137,11 @@ FAULTS = {
     "match-ref": "match $undefined_ref.Finished()",
     "start-surplus": "start g 1 2 3",                    # more positional arguments than the flow has parameters
     "send-invalid-action": "send StartUtteranceBotAction()",   # an action event that fails its validation when it is created     # fails when the head MOVES to the statement (the event name is needed for the index)
+    # an unknown member of a FLOW reference: rejected by an assert, not by a Colang error
+    "flowref-send": "start g 1 as $fr\n  send $fr.Foo()",
+    "flowref-match": "start g 1 as $fr\n  match $fr.Foo()",
+    # a value of the wrong kind where the interpreter itself uses it (not inside an expression)
+    "goto-type": "while [1, 2].nope\n    send Never1()",
     "priority": 'priority "high"',
     "index": "$x = [1, 2][5]",
 }
